@@ -39,12 +39,12 @@ type Options struct {
 	SimDepth int
 	Seed     int64
 
-	Deque      bool   // depth-first state queue (trace validation)
-	DumpTrace  string // file name (inside scratch) for -dumpTrace json
-	Coverage   bool
-	ExtraFiles map[string][]byte // written into the scratch dir before the run (trace.ndjson, ...)
-	MaxDepth   int               // -depth for BFS (unused when 0)
-	ContinueOnViolation bool     // -continue
+	Deque               bool   // depth-first state queue (trace validation)
+	DumpTrace           string // file name (inside scratch) for -dumpTrace json
+	Coverage            bool
+	ExtraFiles          map[string][]byte // written into the scratch dir before the run (trace.ndjson, ...)
+	MaxDepth            int               // -depth for BFS (unused when 0)
+	ContinueOnViolation bool              // -continue
 
 	// OnJSON is called for every line TLC prints that is a JSON document (PrintT(ToJson(..))).
 	OnJSON func(raw []byte)
@@ -54,23 +54,23 @@ type Options struct {
 
 // Result is what a run reported.
 type Result struct {
-	Generated   int64
-	Distinct    int64
-	Depth       int
-	Finished    bool   // "Model checking completed" or simulation finished
-	TimedOut    bool
-	Violated    string // name of violated invariant / property ("" if none)
+	Generated     int64
+	Distinct      int64
+	Depth         int
+	Finished      bool // "Model checking completed" or simulation finished
+	TimedOut      bool
+	Violated      string // name of violated invariant / property ("" if none)
 	ViolationKind string // "invariant" | "action" | "temporal" | "deadlock" | "postcondition" | "assert"
-	PostFalse   bool   // POSTCONDITION evaluated to FALSE
-	Error       string // TLC reported an evaluation / parse error
-	JSONLines   int64
-	Output      string
-	Wall        time.Duration
-	ExitCode    int
-	Scratch     string // scratch dir (removed unless KeepScratch)
-	TraceJSON   []byte // content of the -dumpTrace json file, if any
-	Coverage    map[string]int64 // action name -> distinct states found through it (when Coverage)
-	Cmd         string
+	PostFalse     bool   // POSTCONDITION evaluated to FALSE
+	Error         string // TLC reported an evaluation / parse error
+	JSONLines     int64
+	Output        string
+	Wall          time.Duration
+	ExitCode      int
+	Scratch       string           // scratch dir (removed unless KeepScratch)
+	TraceJSON     []byte           // content of the -dumpTrace json file, if any
+	Coverage      map[string]int64 // action name -> distinct states found through it (when Coverage)
+	Cmd           string
 }
 
 var (
